@@ -5687,6 +5687,8 @@ def merge_parts(parts, reassign="voice"):
             Tempo,
         )
 
+    # number of voices taken by the parts handled so far (used by "auto")
+    n_previous_voices = 0
     for p_ind, p in enumerate(parts):
         if reassign == "auto":
             # find how many staves this part has
@@ -5707,12 +5709,16 @@ def merge_parts(parts, reassign="voice"):
             # find how many voices this part has
             n_voices = len(unique_voices[p_ind])
             # build a mapping between the old and new voices
+            # (four voices are reserved per staff; a part that uses more voices
+            # than that takes as many as it needs, so that the voices of the
+            # following parts stay apart from them)
             voice_mapping = dict(
                 zip(
                     unique_voices[p_ind],
-                    n_previous_staves * 4 + np.arange(1, n_voices + 1),
+                    n_previous_voices + np.arange(1, n_voices + 1),
                 )
             )
+            n_previous_voices += max(4 * n_staves, n_voices)
         for e in p.iter_all():
             # full copy the first part and partially copy the others
             # we don't copy elements like duplicate barlines, clefs or
